@@ -421,7 +421,7 @@ class TlsHandshakeClientHello(TlsHandshakeHello):  # pylint: disable=too-many-in
         validator=attr.validators.instance_of(TlsProtocolVersion),
     )
     random = attr.ib(
-        default=TlsHandshakeHelloRandom(),
+        default=attr.Factory(TlsHandshakeHelloRandom),
         validator=attr.validators.instance_of(TlsHandshakeHelloRandom),
     )
     session_id = attr.ib(
@@ -545,7 +545,7 @@ class TlsHandshakeServerHello(TlsHandshakeHello):
         validator=attr.validators.instance_of(TlsProtocolVersion),
     )
     random = attr.ib(
-        default=TlsHandshakeHelloRandom(),
+        default=attr.Factory(TlsHandshakeHelloRandom),
         validator=attr.validators.instance_of(TlsHandshakeHelloRandom),
     )
     session_id = attr.ib(
